@@ -75,6 +75,8 @@ var acsLocations = []string{
 	"https://sp%d.example:8443/acs/%d/ü",
 	"https://sp%d.example/acs/%d;v=1",
 	"http://sp%d.example/acs/%d",
+	"https://sp%d.example/acs/%d?tenant=42&region=eu&copy=1&para=x",
+	"https://sp%d.example/acs/%d?a=1&amp;lt=2&quot=3&#x41;=4",
 }
 
 var allBindings = []string{world.BindPost, world.BindRedirect, world.BindArtifact, world.BindPAOS, world.BindOther}
@@ -278,6 +280,22 @@ func ssoRender(c SSOCase, now time.Time) (obs.HTTPReq, *spsim.Signed, error) {
 			// valid base64 of bytes that are not a DEFLATE stream (0xFF.. is a reserved block type)
 			edit(func(p string) string {
 				return setParam(setParam(p, "SAMLRequest", qesc(base64.StdEncoding.EncodeToString([]byte("\xff\xff\xff\xffnot deflate")))), "SAMLEncoding", qesc(spsim.EncodingDeflate))
+			})
+		case "base64-trailing-garbage":
+			edit(func(p string) string { return setParam(p, "SAMLRequest", getParam(p, "SAMLRequest")+d.Param) })
+		case "base64-middle-garbage":
+			edit(func(p string) string {
+				v := getParam(p, "SAMLRequest")
+				return setParam(p, "SAMLRequest", v[:len(v)/2]+d.Param+v[len(v)/2:])
+			})
+		case "base64-url-alphabet":
+			edit(func(p string) string {
+				v := getParam(p, "SAMLRequest")
+				v2 := strings.NewReplacer("%2B", "-", "%2F", "_", "%2b", "-", "%2f", "_").Replace(v)
+				if v2 == v {
+					v2 = v + "-_"
+				}
+				return setParam(p, "SAMLRequest", v2)
 			})
 		case "unknown-encoding":
 			edit(func(p string) string { return setParam(p, "SAMLEncoding", qesc(d.Param)) })
@@ -666,7 +684,7 @@ func genID(t *rapid.T, label string) string {
 	return rapid.SampledFrom(idAlphabet).Draw(t, label) + fmt.Sprintf("-%d", rapid.IntRange(0, 999).Draw(t, label+"n"))
 }
 
-var relayStates = []string{A, "", "rs-plain", "https://sp.example/return?a=1&b=2", "x y+z%20", "<script>alert(1)</script>", "\"quoted\" 'single'", "ünï€𝄞", "token=abc==", strings.Repeat("r", 80)}
+var relayStates = []string{A, "", "rs-plain", strings.Repeat("r", 79), strings.Repeat("é", 40), strings.Repeat("r", 81), strings.Repeat("r", 255), strings.Repeat("r", 256), strings.Repeat("r", 1024), "https://sp.example/return?a=1&b=2", "x y+z%20", "<script>alert(1)</script>", "\"quoted\" 'single'", "ünï€𝄞", "token=abc==", strings.Repeat("r", 80)}
 
 // genValidAuthn draws a request the statement of C06/C07 deems valid for SP sp of spec.
 func genValidAuthn(t *rapid.T, spec world.Spec, sp int, host string) spsim.AuthnReq {
